@@ -13,7 +13,30 @@ if ROOT not in sys.path:
     sys.path.insert(0, ROOT)
 
 
+class JobTimeout(Exception):
+    pass
+
+
+def _alarm(signum, frame):
+    raise JobTimeout()
+
+
 def _job(args):
+    modname, clsname, grid, opts = args
+    import signal
+    signal.signal(signal.SIGALRM, _alarm)
+    signal.alarm(int(opts.get('job_timeout', 900)))
+    try:
+        return _job_inner(args)
+    except JobTimeout:
+        return dict(oid='%s.%s[%s]' % (modname, clsname, grid), status='timeout', error='job exceeded %ss' % opts.get('job_timeout', 900),
+                    module=modname, cls=clsname, grid=grid, results=[], nleaves=0, cex=None, replay=None, bounded=None,
+                    canary=False, seconds=0, backends={}, functions=[])
+    finally:
+        signal.alarm(0)
+
+
+def _job_inner(args):
     modname, clsname, grid, opts = args
     try:
         from fvverif import oblig
